@@ -1,42 +1,131 @@
 #!/usr/bin/env python3
-"""Writes seeded/<id>/meta.json from the table below + the intake logs."""
+"""Writes seeded/<id>/meta.json from the table below, seeded/<id>/confirm.json and the SELFTEST lines found in the
+log files given on the command line (appended to seeded/<id>/selftest.log as history; the latest line per
+(seed, property) decides `caught_by` / `missed_by`).
+
+    tools/seed_meta.py [selftest logs ...]
+"""
 import json, os, re, sys
 ROOT = '/verif/seeded'
+# id -> (property, what it needs in order to manifest, note)
 T = {
- 'C01a': ('C01', "one_of/none_of with a *string-typed* token set (str/String/&str) and an input character in U+0080..U+00FF (Latin-1 char scanned as a raw UTF-8 byte)", ['C01'], "initially MISSED (builders only used Vec<char> sets); caught after token sets were generated in every container type (String, &'static str, arrays, BTreeSet, HashSet, RangeInclusive) with Latin-1/4-byte characters"),
- 'C01b': ('C01', "not() around an inner parser that fails after consuming a prefix (multi-token just / then): the lookahead then consumes", ['C01'], ""),
- 'C02a': ('C02', "separated_by().allow_leading() with a multi-token separator and an input that starts with a proper prefix of the separator", ['C02'], ""),
- 'C02b': ('C02', "repeated() with a static at_most/exactly *and* a configure() closure that does not set at_most, input with more items than the cap", ['C02'], "initially MISSED (configure closures always set both bounds); caught after adding mixed static/configure bound variants (MixedLo, MixedHi, ConfigureNoop)"),
- 'C05a': ('C05', "zero-width emitter (recovery via empty(), validate on an absent option) followed by a parser failing at the same position inside a backtracking combinator: rewind() early-returns when the cursor did not move", ['C05', 'C08'], ""),
- 'C05b': ('C05', "validate() as the outermost combinator of a boxed/recursive parser used where the output is discarded (check mode through dynamic dispatch)", ['C05'], ""),
- 'C06a': ('C06', "Rich only: a Rich::custom error raised at p, then a primitive failing further at q > p (replace_expected_found keeps the stale custom reason)", ['C06'], ""),
- 'C06b': ('C06', "try_map whose inner parser succeeds leaving a pending failure at or behind the cursor, followed by a failure at exactly that position / positive lookahead", ['C06'], ""),
- 'C07a': ('C07', "token inputs with their own spans (Input::map, Stream::map, IterInput): empty match at position 0 of a non-empty input", ['C07'], ""),
- 'C07b': ('C07', "foldr_with with >= 2 prefix items: inner folds get the span of the whole expression", ['C07'], ""),
- 'C08a': ('C08', "skip_until with a multi-token `until` whose proper prefix overlaps the real match (no rewind after a failed until probe)", ['C08'], ""),
- 'C08b': ('C08', "successful recovery that consumes nothing, next parser failing at the same position, enclosing backtracking combinator (rewind early return)", ['C08', 'C05'], ""),
- 'C09a': ('C09', "postfix operator with the same power as a left-associative infix operator, applied to the infix operator's right operand", ['C09'], ""),
- 'C09b': ('C09', ">= 2 infix operators, the first one's right operand missing: later operators are tried after the dangling operator", ['C09'], ""),
- 'C10a': ('C10', "IoInput only: and_is whose first operand consumed >= 2 bytes while the second stopped earlier (cursor restored forwards, reader not re-synchronised), then more parsing", ['C10'], "initially MISSED (the u8 family had no and_is with a long first operand); caught after 5 more u8 grammars were added (forward cursor restores, keyword idiom, rewind after long match, nested choices, skip_then_retry_until)"),
- 'C10b': ('C10', "Graphemes input containing CR immediately followed by LF (ASCII fast path splits the cluster)", ['C10'], ""),
+ 'C01a': ('C01', "one_of/none_of with a *string-typed* token set (str/String/&str) and an input character in U+0080..U+00FF (Latin-1 char scanned as a raw UTF-8 byte)", "initially MISSED (builders only used Vec<char> sets); caught after token sets were generated in every container type (String, &'static str, arrays, BTreeSet, HashSet, RangeInclusive) with Latin-1/4-byte characters"),
+ 'C01b': ('C01', "not() around an inner parser that fails after consuming a prefix (multi-token just / then): the lookahead then consumes", ""),
+ 'C01c': ('C01', "not() whose inner parser matches >= 1 token and then fails, and the not() is not the second operand of and_is (rewind moved into the Ok arm)", "same site as C01b, different edit"),
+ 'C01d': ('C01', "choice over an array / Vec / slice (not a tuple) whose penultimate alternative partially matches before failing: no rewind before the last alternative", ""),
+ 'C02a': ('C02', "separated_by().allow_leading() with a multi-token separator and an input that starts with a proper prefix of the separator", ""),
+ 'C02b': ('C02', "repeated() with a static at_most/exactly *and* a configure() closure that does not set at_most, input with more items than the cap", "initially MISSED (configure closures always set both bounds); caught after adding mixed static/configure bound variants (MixedLo, MixedHi, ConfigureNoop)"),
+ 'C02c': ('C02', "separated_by with a multi-token separator that partially matches where the list ends (at_least <= count < at_most): the half-matched separator stays consumed", ""),
+ 'C02d': ('C02', "x.repeated().at_most(n) (n >= 1, no at_least) used directly as a unit parser (to_slice, ignored, then_ignore) on more than n items: fast path ignores the cap", ""),
+ 'C03a': ('C03', "Stream over an iterator whose size_hint lower bound is 0, input longer than 512 tokens (batch boundary): end of input reported early", "initially MISSED; caught after long inputs on hint-less streams were added"),
+ 'C03c': ('C03', "IoInput only: a sub-parser ran into the real end of input, failed and was backtracked out of, then >= 1 more token was read: end() sees a phantom end of input", ""),
+ 'C03d': ('C03', "Pratt: >= 2 infix operators, operator X followed by a later-declared operator Y then an operand (`1+-2`): the dangling operator's token is consumed by nothing and the input accepted", "same edit as C09c; C03 caught it only after the Pratt family was added"),
+ 'C04a': ('C04', "x.repeated() without bounds used as a unit parser whose item emits a secondary error and then fails in the final iteration (fast path keeps the emission)", "initially MISSED; caught after emitting items in unit repetitions were added"),
+ 'C04b': ('C04', "Parser::into_iter() consumed by collect_exactly in Check mode", "initially MISSED; caught by the API sweep"),
+ 'C04c': ('C04', "into_iter() run in Check mode yields zero items: collect_exactly (count-sensitive) fails in check() and under ignored/ignore_then/to_slice but succeeds in parse()", "same area as C04b, different edit"),
+ 'C04d': ('C04', "custom/Ext parser calling inp.check(&inner) where inner emits a secondary error and then fails: InputRef::check rewinds (truncating the emission), InputRef::parse does not", ""),
+ 'C05a': ('C05', "zero-width emitter (recovery via empty(), validate on an absent option) followed by a parser failing at the same position inside a backtracking combinator: rewind() early-returns when the cursor did not move", ""),
+ 'C05b': ('C05', "validate() as the outermost combinator of a boxed/recursive parser used where the output is discarded (check mode through dynamic dispatch)", ""),
+ 'C05c': ('C05', "rewind() fast path when the cursor is still at the checkpoint: skips truncating emitted errors and the inspector's on_rewind", "same idea as C05a"),
+ 'C05d': ('C05', "separated_by().allow_leading() whose leading-separator attempt fails after consuming/emitting (multi-part, padded or custom separator): not rewound", "same site as C02a"),
+ 'C06a': ('C06', "Rich only: a Rich::custom error raised at p, then a primitive failing further at q > p (replace_expected_found keeps the stale custom reason)", ""),
+ 'C06b': ('C06', "try_map whose inner parser succeeds leaving a pending failure at or behind the cursor, followed by a failure at exactly that position / positive lookahead", ""),
+ 'C06c': ('C06', "Rich only: a user error (try_map over a multi-token parser) merged at the same position after a non-custom failure with a different span: Rich takes the custom error's span, Cheap/Simple keep the first", ""),
+ 'C06d': ('C06', "map_err around a parser that succeeds cleanly (no alt of its own) while an earlier alternative's deeper failure is pending, then a failure before that position: the pending error is not restored", "initially MISSED by C06 (its class had no map_err); caught after labelled/as_context/map_err/memoized joined C06's sheltering sweep and random class; C17 caught it from the start"),
+ 'C07a': ('C07', "token inputs with their own spans (Input::map, Stream::map, IterInput): empty match at position 0 of a non-empty input", ""),
+ 'C07b': ('C07', "foldr_with with >= 2 prefix items: inner folds get the span of the whole expression", ""),
+ 'C07c': ('C07', "Input::map input: empty match at position 0 of a non-empty input gets the span eoi.end..eoi.end", "same as C07a"),
+ 'C07d': ('C07', "foldr_with with >= 2 left-hand items: every callback span starts at the first folded item", "same as C07b"),
+ 'C08a': ('C08', "skip_until with a multi-token `until` whose proper prefix overlaps the real match (no rewind after a failed until probe)", ""),
+ 'C08b': ('C08', "successful recovery that consumes nothing, next parser failing at the same position, enclosing backtracking combinator (rewind early return)", ""),
+ 'C08c': ('C08', "nested recovery / emitting validate inside p that succeeds, then p as a whole fails and the outer strategy succeeds: the inner emissions survive (rewind_input instead of rewind)", ""),
+ 'C08d': ('C08', "nested_delimiters with >= 2 `others` pairs and a region containing a non-last pair kind", ""),
+ 'C09a': ('C09', "postfix operator with the same power as a left-associative infix operator, applied to the infix operator's right operand", ""),
+ 'C09b': ('C09', ">= 2 infix operators, the first one's right operand missing: later operators are tried after the dangling operator", ""),
+ 'C09c': ('C09', ">= 2 infix operators, the dangling one declared first, input `lhs OP1 OP2 operand`: no rewind after the operand failed", "same as C09b"),
+ 'C09d': ('C09', "a prefix operator weaker than its enclosing context (rhs of a tighter infix / operand of a tighter prefix) followed by an operator of intermediate power: operand power clamped to min_power", ""),
+ 'C10a': ('C10', "IoInput only: and_is whose first operand consumed >= 2 bytes while the second stopped earlier (cursor restored forwards, reader not re-synchronised), then more parsing", "initially MISSED (the u8 family had no and_is with a long first operand); caught after 5 more u8 grammars were added"),
+ 'C10b': ('C10', "Graphemes input containing CR immediately followed by LF (ASCII fast path splits the cluster)", ""),
+ 'C10c': ('C10', "IoInput: forward cursor restore after and_is with a shorter lookahead (reseek only when cursor < last_cursor)", "same as C10a"),
+ 'C10d': ('C10', "Graphemes: ASCII fast path returns CR and LF as two clusters", "same as C10b"),
+ 'C11a': ('C11', "the same memoized instance run twice in one parse, first run failing after consuming >= 1 token, a later run starting exactly where the earlier one stopped (failed entry filed under the end position)", ""),
+ 'C11b': ('C11', "left-recursive grammar whose cycle passes through with_ctx / ignore_with_ctx / then_with_ctx", "initially MISSED; caught after left-recursive shapes through context boundaries were added"),
+ 'C11c': ('C11', "the same memoized object tried twice at one position (shared through boxed()/Rc/recursive) and failing there while another parser's error is pending at the same or a later position: a table hit discards the pending error", ""),
+ 'C11d': ('C11', "adjacent small memoized parsers (array elements of choice), input of >= 5 tokens, an earlier recovered failure: key = address ^ position collides", ""),
+ 'C12a': ('C12', "Recursive::declare/define: a clone taken before define(), all strong handles dropped before parsing (mutually recursive partner)", ""),
+ 'C12b': ('C12', "Pratt right-associative infix chain of ~10^4+ links (no stack-growth guard on that path)", "initially MISSED; caught after Pratt chain depth shapes were added"),
+ 'C12c': ('C12', "declare/define parser run in Check mode (check(), to_slice(), ignored(), then_ignore) on deep nesting: stack guard dropped on the Check arm only", ""),
+ 'C12d': ('C12', "define() called a second time (panics as before) but the second definition is installed: survive the panic and use the parser / an earlier clone / the mutual partner", ""),
+ 'C13a': ('C13', "recursive() parser used for >= 2 parses through the same value (or clones): an earlier parse leaves a failure memo inside the parser", ""),
+ 'C13b': ('C13', "regex() parser shared by threads parsing different inputs at the same time, or reused across inputs through a Cache: stale (address, offset) cache", ""),
+ 'C13c': ('C13', "explicit .clone() of a separated_by parser with asymmetric allow_leading/allow_trailing flags, input with a leading separator", ""),
+ 'C13d': ('C13', "threads only: two threads inside the same memoized sub-parser at the same offset at once (left-recursion marker kept in an atomic on the combinator)", ""),
+ 'C14a': ('C14', "regex pattern beginning with a look-behind-sensitive assertion (\\b, ^) run at a cursor position > 0", ""),
+ 'C14b': ('C14', "&[u8] input: control bytes 0x10..0x19 where digits/int look at them, byte - 0x10 < radix", ""),
+ 'C14c': ('C14', "ascii::keyword followed by a non-ASCII XID_Continue character (built on the Unicode ident), or a byte >= 0x80 on &[u8]", ""),
+ 'C14d': ('C14', "regex pattern that can match the empty string, cursor exactly at the end of input", ""),
+ 'C15a': ('C15', "configured repetition used as a plain (unit) Parser: to_slice / ignored / then_ignore / as separator", "initially MISSED; caught after configured repetitions as plain parsers were added"),
+ 'C15b': ('C15', "static bounds + configure() that sets other bounds: merged instead of replaced (at_most(2).configure(exactly(4)))", "initially MISSED; caught after contradictory static bounds overridden by configure were added"),
+ 'C15c': ('C15', "a configurable parser configured *by reference* ((&just(..)).configure(..)) run in Check mode: Check::invoke_cfg ignores the configuration", ""),
+ 'C15d': ('C15', "repetition configured from context with at_least/at_most that stops on an item failing after it consumed a token (lower bound met): not rewound", ""),
+ 'C16a': ('C16', "inner parser emits a non-fatal error, the same nested parse then fails, and the failure reaches the result", "initially MISSED; caught by the nested-vs-direct metamorphic monitor"),
+ 'C16b': ('C16', "nested parse fails while an outer alt is pending at the outer position after b", ""),
+ 'C16c': ('C16', "nested_in run in Check mode with trailing tokens in the inner input after what a matches (end() dropped on the Check arm)", ""),
+ 'C16d': ('C16', "inner grammar emits an error and succeeds without any failed attempt (no pending alt): emissions dropped by with_input", ""),
+ 'C17a': ('C17', "a pending alt further along than the final failure, and a labelled parser that succeeds cleanly in between", ""),
+ 'C17b': ('C17', "map_err-wrapped parser that fails after backtracking internally, with a competitor between its cursor and its furthest failure", ""),
+ 'C17c': ('C17', "labelled(..).as_context() failing past its first token while an earlier alternative left a pending error at the same position with a different span (keyword / try_map over an identifier)", ""),
+ 'C17d': ('C17', "map_err over a multi-token parser failing past its first token + a competing error between its start and the failure (mapped error filed back at the start)", ""),
+ 'C18a': ('C18', "InputRef::skip() (text::newline's CR branch, or custom parsers using skip) with a non-trivial inspector", "initially MISSED; caught after custom leaves using peek()+skip() were added"),
+ 'C18b': ('C18', "and_is whose second parser succeeds having consumed fewer tokens than the first (inspector not told about the reposition)", ""),
+ 'C18c': ('C18', ".padded() that skips >= 1 whitespace token followed by another token: skip_while feeds the terminating token to the inspector and only restores the cursor", ""),
+ 'C18d': ('C18', "backtracking over a region in which a secondary error was emitted (recover_with / validate) with a snapshot inspector: slow path of rewind() lost the on_rewind call", ""),
+ 'C19a': ('C19', "collect_exactly (Emit mode) whose iterator ends cleanly after >= 1 and < N items", ""),
+ 'C19b': ('C19', "zero-sized output type with a Drop impl in a partially filled fixed-size collection", "initially MISSED; caught after the zero-sized droppable value family was added"),
+ 'C19c': ('C19', "group([..; N]) with N >= 3 failing at index >= 2 in Emit mode with droppable outputs: only the first initialised output is dropped", ""),
+ 'C19d': ('C19', "collect_exactly whose iterator *fails* (at_least/exactly not met) after >= 1 stored element: drop_before runs twice", ""),
+ 'C20a': ('C20', "choice over an empty Vec/slice/array at run time directly under map_err / recover_with / custom inp.parse", "initially MISSED; caught after the empty run-time choice leaf was added"),
+ 'C20b': ('C20', "skip_then_retry_until around a parser containing another recovery/validate, input on which the retry succeeds with emissions forever", ""),
+ 'C20c': ('C20', "Pratt: a run of ~2000+ prefix operators (operand closure no longer goes through the stack-growth guard)", ""),
+ 'C20d': ('C20', "into_iter().enumerate() consumed by collect/count/fold in a debug build: NONCONSUMPTION_IS_OK lost, false 'making no progress' panic", ""),
 }
-for sid, (prop, needs, caught, note) in T.items():
+latest = {}
+hist = {}
+for f in sys.argv[1:]:
+    for line in open(f, errors='replace'):
+        m = re.match(r'SELFTEST (C\d\d) (C\d\d[a-z])/patch\.diff: (CAUGHT|MISSED|INCONCLUSIVE)', line)
+        if m:
+            latest[(m.group(2), m.group(1))] = m.group(3)
+            hist.setdefault(m.group(2), []).append(line.strip()[:400])
+for sid, (prop, needs, note) in sorted(T.items()):
     d = os.path.join(ROOT, sid)
     if not os.path.isdir(d):
         continue
     conf = json.load(open(os.path.join(d, 'confirm.json'))) if os.path.exists(os.path.join(d, 'confirm.json')) else {}
-    st = open(os.path.join(d, 'selftest.log')).read().strip().splitlines() if os.path.exists(os.path.join(d, 'selftest.log')) else []
+    lp = os.path.join(d, 'selftest.log')
+    old = open(lp).read().strip().splitlines() if os.path.exists(lp) else []
+    new = [l for l in hist.get(sid, []) if l not in old]
+    if new:
+        open(lp, 'a').write('\n'.join(new) + '\n')
+    st = old + new
+    # latest verdict per property over the whole history (later lines win)
+    verdict = {}
+    for l in st:
+        m = re.match(r'SELFTEST (C\d\d) \S+: (CAUGHT|MISSED|INCONCLUSIVE)', l)
+        if m:
+            verdict[m.group(1)] = m.group(2)
     meta = {
         'id': sid, 'breaks_property': prop, 'origin': 'independent sub-agent given only the property text and a scratch worktree of /repo',
         'needs_to_manifest': needs,
         'confirmed_by_me': conf,
         'what_i_ran': [
-            'tools/seed_intake.sh %s %s  (scratch worktree /tmp/wt-verify: demo passes without the change, fails with it; cargo test --workspace passes with it)' % (prop if len(sid)==4 else sid[:-1], sid[-1]),
-            './selftest.sh one seeded/%s/patch.diff <Cxx> quick  (scratch copy of /repo + harness under /root/scratch/selftest)' % sid,
+            'tools/seed_intake.sh %s %s  (scratch worktree /tmp/wt-verify*: demo passes without the change, fails with it; cargo test --workspace passes with it)' % (prop, sid[-1]),
+            './selftest.sh one|many seeded/%s/patch.diff <Cxx> quick  (scratch copy of /repo + the committed harness under /root/scratch/)' % sid,
         ],
-        'caught_by': caught,
+        'caught_by': sorted(p for p, v in verdict.items() if v == 'CAUGHT'),
+        'missed_by': sorted(p for p, v in verdict.items() if v != 'CAUGHT'),
         'selftest_history': st,
         'note': note,
     }
     json.dump(meta, open(os.path.join(d, 'meta.json'), 'w'), indent=1, ensure_ascii=False)
-    print(sid, 'ok')
+print('meta written for', sum(1 for s in T if os.path.isdir(os.path.join(ROOT, s))), 'seeds')
